@@ -62,7 +62,7 @@ def phase2(sel):
     for sid, prop, wt, d in items():
         if sel and sid not in sel: continue
         r = p1.get(sid, {})
-        dest = f"/verif/seeded/{sid}"
+        dest = os.environ.get("EVAL_DEST", "/verif/seeded") + f"/{sid}"
         os.makedirs(dest, exist_ok=True)
         for f in os.listdir(d):
             if os.path.isfile(f"{d}/{f}"): shutil.copy(f"{d}/{f}", f"{dest}/{f}")
@@ -70,7 +70,7 @@ def phase2(sel):
         sh(f"git -C {REPO} apply {dest}/patch.diff")
         checks = {}
         try:
-            for p in ["C12", "C16", "C17", "C18", "C19"]:
+            for p in ([prop] if os.environ.get("EVAL_TARGET_ONLY") else ["C12", "C16", "C17", "C18", "C19"]):
                 t0 = time.time()
                 c, o = sh(f"{ROOT}/bin/check {p} quick")
                 first = next((l for l in o.splitlines() if l.startswith("violation:")), "")
